@@ -182,6 +182,39 @@ def trace_validate(ctx, prop, quick):
         ctx.sample({"kind": "one recorded post state", "post": t[min(3, len(t) - 1)]["post"]})
 
 
+def rpc_framing(ctx):
+    """Beyond the listed property: request/reply framing of handle_client (spec/RpcConn.tla)."""
+    import copy
+    from . import rpcconn
+    logs = rpcconn.record()
+    res, rejected, traces = rpcconn.validate(ctx, logs)
+    if not res.ok:
+        ctx.violation("rpc framing: %s %s" % (res.kind, res.name),
+                      "a recorded connection of rpcserver.handle_client violates RpcConn.tla", {"logs": logs})
+    for name in rejected:
+        ctx.violation("rpc framing: scenario %s rejected" % name,
+                      "the socket-level events of one connection are not a behaviour of RpcConn.tla "
+                      "(one reply per request in order, error replies for raising handlers, no reply to a line that "
+                      "is not JSON, shutdown exactly once after EOF / protocol error, nothing sent afterwards)",
+                      {"scenario": name, "events": traces[name]})
+    # sensitivity of the binding: corrupted copies of accepted traces must be rejected
+    base = traces["pipelined"]
+    bad = {
+        "no_shutdown": [e for e in base if e["e"] != "shutdown"],
+        "send_after_shutdown": base + [{"e": "send", "id": "a", "err": False}],
+        "replies_swapped": [dict(e) for e in base],
+        "reply_to_malformed": traces["malformed_first"][:1] + [{"e": "send", "id": "m2", "err": True}] + traces["malformed_first"][1:],
+    }
+    sends = [k for k, e in enumerate(bad["replies_swapped"]) if e["e"] == "send"]
+    bad["replies_swapped"][sends[0]], bad["replies_swapped"][sends[1]] = bad["replies_swapped"][sends[1]], bad["replies_swapped"][sends[0]]
+    res2, rej2, _ = rpcconn.validate(ctx, {k: [dict(e, keys=[]) for e in v] for k, v in bad.items()})
+    if sorted(rej2) != sorted(bad) and res2.ok:
+        ctx.machinery("RpcConn.tla accepted a corrupted trace: rejected only %s of %s" % (sorted(rej2), sorted(bad)))
+    ctx.cover(traces_validated_against_impl=len(traces) - len(rejected), states=res.distinct, transitions=res.generated)
+    ctx.set_cover(rpc_framing_scenarios=sorted(traces), rpc_framing_corruptions_rejected=sorted(rej2))
+    ctx.sample({"kind": "socket-level events of one connection (scenario 'pipelined')", "events": base})
+
+
 def run(ctx, prop):
     import time
     quick = ctx.tier == "quick"
@@ -192,6 +225,8 @@ def run(ctx, prop):
     t2 = time.time()
     from . import qsreplay
     qsreplay.replay_behaviours(ctx, prop, quick)
+    if prop == "C16":
+        rpc_framing(ctx)
     ctx.set_cover(phase_seconds={"model_check": round(t1 - t0, 1), "trace_validation": round(t2 - t1, 1),
                                  "replay": round(time.time() - t2, 1)})
     ctx.assume("gevent hub callbacks run FIFO (the driver's batches rely on it; asserted by the replay comparison)",
